@@ -3,7 +3,7 @@
    (so the checker cannot raise a false alarm on an output the theorem allows). *)
 From Coq Require Import NArith ZArith List Bool Lia.
 Import ListNotations.
-Require Import UV.Gen.Consts UV.Mcount.Model UV.Mcount.Forest UV.Mcount.PlainProofs UV.Mcount.Embed UV.Mcount.Check UV.Mcount.Monotone.
+Require Import UV.Gen.Consts UV.Mcount.Model UV.Mcount.Forest UV.Mcount.PlainProofs UV.Mcount.Embed UV.Mcount.Check UV.Mcount.Monotone UV.Mcount.EmbedOver.
 Local Open Scope N_scope.
 
 Lemma scan_history : forall k d, scan d (history d k) = Some d.
@@ -204,3 +204,23 @@ Proof.
   destruct (stream_append_only c p q (init, []) NF) as [l Hl].
   exists g, l. split; [exact M|]. rewrite <- E, Hpq. symmetry. exact Hl.
 Qed.
+
+(* ---------------------------------------------------------------- the same without the --max-stack bound *)
+Theorem nested_any_cfg_any_depth c : no_switch c -> forall f, all_ended f ->
+  scan 0 (out (fst (exec c (flat_forest f) (init, [])))) = Some 0.
+Proof. intros NS f HT. destruct (forest_over c NS f HT) as (g & _ & E). rewrite E. apply scan_histories. Qed.
+
+Theorem stream_at_any_instant_any_depth c : no_switch c -> forall f, all_ended f ->
+  forall p q, flat_forest f = p ++ q ->
+  exists g l, emb g f /\ out (fst (exec c p (init, []))) ++ l = flat_map (history 0) g.
+Proof.
+  intros NS f HT p q Hpq.
+  destruct (forest_over c NS f HT) as (g & M & E).
+  assert (NF : no_fork q) by (apply (no_fork_suffix p); rewrite <- Hpq; apply flat_forest_no_fork).
+  destruct (stream_append_only c p q (init, []) NF) as [l Hl].
+  exists g, l. split; [exact M|]. rewrite <- E, Hpq. symmetry. exact Hl.
+Qed.
+
+Theorem model_passes_ok_emb_any_depth c : no_switch c -> forall f, all_ended f ->
+  ok_emb f (map ideal (out (fst (exec c (flat_forest f) (init, []))))) = true.
+Proof. intros NS f HT. destruct (forest_over c NS f HT) as (g & M & E). rewrite E. apply ok_emb_complete. exact M. Qed.
